@@ -363,6 +363,14 @@ PLANS = {
                      "robust_orientation, insphere, insphere_lifted, insphere_distance, robust_insphere); TLC computes the "
                      "exact integer sign and the decidability band. distinct non-trivial = distinct (D, s, points, query)",
                 nontrivial=lambda e: ((e["ev"], json.dumps(e.get("args"), sort_keys=True)) if e["ev"] == "Pred" else None)),
+    "C14": dict(level="model_checking", families=[("determinism", 14, 16)],
+                rule="for each point multiset (general position / random / degenerate, sometimes with an exact coordinate tie "
+                     "under a different uuid): the same slice twice, permutations of the slice, all four ordering strategies, "
+                     "the incremental route, four threads at once, and a child process re-executing every keyed "
+                     "construction; TLC keeps a history variable memo[key] and requires equal coordinate-cell sets for equal "
+                     "keys (the key ignores caller order for Hilbert/Morton/lexicographic) and K = DT(S) in general position. "
+                     "distinct non-trivial = distinct determinism keys exercised at least twice",
+                nontrivial=lambda e: (("key", e["args"].get("dkey")) if e["ev"] == "Construct" and e["args"].get("dkey") else None)),
     "C16": dict(level="model_checking", families=[("toroidal", 14, 16)],
                 rule="toroidal (canonicalised) builds in D=2,3 from lattice points far outside the box (up to 2^20 periods), "
                      "negative, exactly on faces, with periods 3..12 lattice units at scales 2^-3..2^1 (so 0.375 .. 24), an "
